@@ -1,6 +1,7 @@
 import Dashu.Driver.Loop
 import Dashu.Model.Float.Spec
 import Dashu.Model.Float.QRound
+import Dashu.Driver.FloatSoft
 /-
   Driver of group `float` (C10, C03).
 
@@ -101,6 +102,21 @@ def parseBool (s : String) : Option Bool :=
 def coarseTag (B fmag k : Nat) : String :=
   match coarseF32 B fmag k with
   | some .gt => "coarse-gt" | some .lt => "coarse-lt" | some .eq => "coarse-eq" | none => "exact"
+
+/-- C10 (IEEE assumption, compared per case): the same test evaluated by the integer-arithmetic soft-float replica of
+    `Model/Float/SoftF32.lean` (every `+`, `*`, `as f32`, literal an exact result rounded to nearest-even; `log2f` from libm);
+    a different decision or a different bit pattern of one of `lb ub b_lb b_ub (precision as f32)` and the four compared
+    quantities is reported as a defect of the replica / of the assumption, never of dashu -/
+def softCheck (B fmag k : Nat) : String :=
+  let (lb, ub) := log2Bounds fmag
+  let (blb, bub) := log2Bounds B
+  let kf : Float32 := k.toUInt64.toFloat32
+  let c1 := Float32.ofBits 0x3F7FBE77; let c2 := Float32.ofBits 0x3F8020C5
+  let native : List Nat := [lb, ub, blb, bub, kf, bub * kf, lb + c1, ub + c2, blb * kf].map (fun f => f.toBits.toNat)
+  match Dashu.Driver.FloatSoft.coarse B fmag k with
+  | none => " !model-soft-f32 out-of-replica-range"
+  | some (dec, bits) =>
+    if dec == coarseF32 B fmag k && bits == native then "" else " !model-soft-f32 soft=" ++ toString bits ++ " native=" ++ toString native
 
 /-- the enclosure hypotheses, checked exactly on an operand -/
 def estSound (B : Nat) (v : Int) : Bool :=
@@ -229,6 +245,24 @@ def binArith (asIs : Bool) (ctxForm : Bool) (op : String) (a b : FArg) (p : Nat)
         (x.digits B > y.digits B + p))
   | _ => none
 
+/-- C03 (round 5, ROUND4 addendum E1): `sqrt` at a precision ≥ 2^62.  The scaled significand of `Context::sqrt` would have
+    ≥ 2^63 digits, so the mirrored algorithm cannot be run (nor can the real one: its `precision as isize * 2` overflows);
+    the REQUIRED outcome is still decidable: a radicand that is the square of a representable number has that number as
+    its exact root (flag Exact); every other root has ≥ 2^62 significant digits and cannot be returned by any
+    implementation (printed as the pseudo panic `ResultNeedsMemory`). -/
+def sqrtHugeP (B : Nat) (p : Nat) (x : FRepr) : String :=
+  if x.signif < 0 then Dashu.Driver.panic FPanic.rootNegative.name
+  else
+    let n := FRepr.new B x.signif x.exp
+    let se : Nat × Int := if n.exp % 2 = 0 then (n.signif.natAbs, n.exp) else (n.signif.natAbs * B, n.exp - 1)
+    let w := Nat.sqrt se.1
+    if w * w = se.1 then ok (roundedStr (FRepr.new B (w : Int) (se.2 / 2), none) p)
+    else Dashu.Driver.panic "ResultNeedsMemory"
+
+/-- the result of `sqrt` on the operand scaled by `B^(-2t)`, scaled back by `B^t` (zero stays zero) -/
+def sqrtShiftExp (r : Rounded FRepr) (t : Int) : Rounded FRepr :=
+  if t = 0 ∨ r.1.signif = 0 then r else (⟨r.1.signif, r.1.exp + t⟩, r.2)
+
 def unArith (asIs : Bool) (ctxForm : Bool) (op : String) (a : FArg) (p : Nat) : Option String := do
   let B := a.base; let m := a.mode
   let fixed := !asIs
@@ -251,10 +285,15 @@ def unArith (asIs : Bool) (ctxForm : Bool) (op : String) (a : FArg) (p : Nat) : 
       let ex := 1 / q B x
       pure (chkContract asIs B m p ex (isRepresentableQ B p ex) r (ok (roundedStr r p)))
   | "sqrt" =>
+    if p ≥ 2 ^ 62 then pure (sqrtHugeP B p x) else
+    -- C03 (round 5, addendum E1): exponents of magnitude ≥ 2^20 are handled through the scale invariance
+    -- √(s·B^(e0+2t)) = √(s·B^e0)·B^t (the exact-rational contract check below would need B^|e|): `t = 0` otherwise
+    let t : Int := if x.exp.natAbs ≥ 2 ^ 20 then x.exp / 2 else 0
+    let x : FRepr := ⟨x.signif, x.exp - 2 * t⟩
     match ctxSqrt B m coarseNone natSqrtRem p x with
     | .error k => pure (Dashu.Driver.panic k.name)
     | .ok r =>
-      let s := ok (roundedStr r p)
+      let s := ok (roundedStr (sqrtShiftExp r t) p)
       if asIs then pure s
       else if !contractSqrtOk B m p (q B x) (q B r.1) r.2 then pure (mism s "contract-sqrt")
       else if r.1.digits B > p then pure (mism s "more-than-p-digits")
@@ -333,7 +372,8 @@ def dispatchCore (asIs : Bool) : Dispatch := fun _W op args =>
     if asIs ∨ f.natAbs ≥ B ^ k then pure s
     else
       let spec := specAdj m n ((f : Rat) / ((B ^ k : Nat) : Rat))
-      pure (if rInt r = spec then s else mism s ("spec=" ++ adjStr spec))
+      let soft := if f = 0 then "" else softCheck B f.natAbs k
+      pure ((if rInt r = spec then s else mism s ("spec=" ++ adjStr spec)) ++ soft)
   | "r.fracth", [ms, bs, ns, ks, ts, cs, es, negs] => do
     -- directed probe of the coarse test at huge precisions: |fract| = B^k div 2 + c·(B^k >> t) + e
     let m ← parseMode ms; let B ← parseDecNat bs
@@ -348,8 +388,9 @@ def dispatchCore (asIs : Bool) : Dispatch := fun _W op args =>
     let s := ok (rName r)
     -- specification: the exact comparison (`round_fract_follows_mode` is stated for it); no `Rat` normalisation of
     -- multi-megabit operands
-    pure (if asIs ∨ r = roundFract B m coarseNone n f k then s
+    pure ((if asIs ∨ r = roundFract B m coarseNone n f k then s
           else mism s ("spec=" ++ rName (roundFract B m coarseNone n f k) ++ " " ++ coarseTag B mag.natAbs k))
+          ++ (if asIs then "" else softCheck B mag.natAbs k))
   | "dbg.coarse", [bs, ks, ts, cs, es] => do
     -- measurement aid (driver only): arm of the coarse test and the exact ordering
     let B ← parseDecNat bs; let k ← parseDecNat ks; let t ← parseDecNat ts
@@ -503,6 +544,8 @@ def dispatchCore (asIs : Bool) : Dispatch := fun _W op args =>
   | _, _ => none
 
 def dispatchWith (asIs : Bool) : Dispatch := fun W op args =>
-  (dispatchCore asIs W op args).map (estCheck args)
+  match Dashu.Driver.FloatSoft.dispatch W op args with
+  | some r => some r            -- `s32.*` (C10: single IEEE operations / log2_bounds against the soft-float model)
+  | none => (dispatchCore asIs W op args).map (estCheck args)
 
 end Dashu.Driver.Float
